@@ -451,6 +451,95 @@ def make_simple_check(pid, suite, args_quick, args_thorough, what, assume, exhau
     return chk
 
 
+def shutdown_compare(impl, model):
+    """model fields may be sets a/b (select may take either ready branch); impl must be a member"""
+    def parse(l):
+        return dict(kv.split("=", 1) for kv in l.split(" ") if "=" in kv)
+    try:
+        pi, pm = parse(impl), parse(model)
+    except Exception:
+        return False
+    for k in ("sh", "serve", "conns"):
+        if pi.get(k, "") not in pm.get(k, "").split("/"):
+            return False
+    return True
+
+
+def check_C11(ctx):
+    facts = prepare(ctx)
+    broken = None
+    if not facts["prop_ok"]:
+        broken = theorem_broken(ctx, facts, "Properties/C11.v no longer checks")
+    if not facts.get("harness_ok"):
+        ctx.violation("harness-build", {"what": "harness does not build against the current tree", "log": tail(facts.get("harness_log", ""))}, found_input=False)
+        return ctx.finish()
+    rep, rows = run_suite_with_model(ctx, facts, "shutdown", ["-len", "5" if ctx.tier == "quick" else "7"])
+    bad = 0
+    for g, cmd, impl, model in rows:
+        if not shutdown_compare(impl, model):
+            bad += 1
+            if bad <= 4:
+                ctx.violation("schedule", {"what": "outcome of this forced schedule on the real server is not one the interleaving model allows",
+                                           "schedule": cmd, "tokens": "c connect, r release accepted connection, 0/1 session ends, S Shutdown up to the listener close, k let the close through, x context ends",
+                                           "implementation": impl, "model": model})
+    if rep:
+        ctx.cov["evaluations"] = len(rows)
+        ctx.cov["distinct_nontrivial"] = rep["distinct_nontrivial"]
+        ctx.cov["traces_validated_against_impl"] = len(rows)
+        ctx.cov["rule"] = rep["rule"]
+        ctx.cov["distribution"] = rep.get("distribution")
+        ctx.cov["samples"] += rep.get("samples", [])
+        ctx.cov["exhaustive"] = True
+        for v in rep["violations"][:4]:
+            ctx.violation("property", v)
+    ctx.assumptions += [
+        "Shutdown.v is a hand-written interleaving semantics of Serve / Shutdown / waiter / sessions: each synchronisation-relevant statement is one atomic step, critical sections of the mutex are single steps; Go's channel close / select / WaitGroup / Mutex semantics are modelled, not verified",
+        "tie: forced schedules - the listener holds every dequeued connection at a gate and its Close at another, sessions are ended and the context cancelled by the harness; every well-formed schedule up to the length bound runs against the real server (no source hooks needed) and the outcome must be one the extracted model allows; while Shutdown is closing the listener it holds the mutex, which the driver glue accounts for by registering a released connection after the close",
+    ]
+    if broken and not ctx.violations:
+        ctx.violation("theorem", broken, found_input=False)
+    return ctx.finish()
+
+
+def check_C12(ctx):
+    facts = prepare(ctx, race=True)
+    if not facts["prop_ok"]:
+        # which pairs of accesses break the discipline?
+        rc, out = coq_query(PRINT_PAIRS.replace("KMIP.Tables.", "KMIP.Tables KMIP.Races.") % "races gen_accesses")
+        pairs = sorted(set(parse_pairs(out)))
+        if pairs:
+            for fn, fld in pairs[:5]:
+                ctx.violation("discipline", {"what": "two accesses to the same Server field that may overlap in time, one a write, without the mutex on both sides and without a happens-before edge",
+                                             "functions": fn, "field": fld,
+                                             "how_to_see": "rows of gen_accesses (coq/theories/Generated.v) for this field; classes and edges in coq/theories/Races.v"})
+        else:
+            ctx.violation("theorem", theorem_broken(ctx, facts, "Properties/C12.v no longer checks"), found_input=False)
+    if not facts.get("harness_race_ok"):
+        ctx.violation("harness-build", {"what": "race-enabled harness does not build", "log": tail(facts.get("harness_race_log", ""))}, found_input=False)
+        return ctx.finish()
+    n = "6" if ctx.tier == "quick" else "120"
+    rc, rep, out, err = run_harness(["race", "-seed", str(ctx.seed), "-n", n], race=True, timeout=3000,
+                                    env={"GORACE": "halt_on_error=0 history_size=3"})
+    races = err.count("WARNING: DATA RACE")
+    if races or "race:" in err and "fatal" in err:
+        first = err[err.find("WARNING: DATA RACE"):][:6000] if races else tail(err, 60)
+        ctx.violation("race", {"what": "the Go race detector reported a data race / misuse of a synchronisation primitive inside the library under documented concurrent use",
+                               "reports": races, "first_report": first})
+    elif rep is None:
+        ctx.violation("race-crash", {"what": "race suite crashed", "stderr": tail(err, 60)}, found_input=False)
+    if rep:
+        ctx.cov["evaluations"] = rep["evaluations"]
+        ctx.cov["distinct_nontrivial"] = rep["distinct_nontrivial"]
+        ctx.cov["rule"] = rep["rule"]
+        ctx.cov["samples"] += rep.get("samples", [])
+        ctx.cov["traces_validated_against_impl"] = rep["evaluations"]
+    ctx.assumptions += [
+        "partial: the theorem covers a lockset / happens-before discipline over SYNTACTIC accesses to Server fields (regenerated table) with hand-fixed thread classes and edges (Races.v), the WaitGroup protocol of the interleaving model (Shutdown.v) and 'no package state is written'; the Go memory model, aliasing through values reachable from handler arguments, and interleavings are not modelled",
+        "the race detector only sees the interleavings that happened in this run",
+    ]
+    return ctx.finish()
+
+
 CHECKS = {"C18": check_C18, "C19": check_C19, "C02": check_C02, "C03": check_C03, "C13": check_C13,
           "C07": make_session_check("C07", 150, 3000), "C08": make_session_check("C08", 150, 3000),
           "C09": make_session_check("C09", 150, 3000), "C10": make_session_check("C10", 150, 3000),
@@ -459,6 +548,7 @@ CHECKS = {"C18": check_C18, "C19": check_C19, "C02": check_C02, "C03": check_C03
                                    "behaviour of Serve on this sequence of Accept results differs from the model of the accept loop (sleeps, served connections, result)",
                                    ["Accept.v is a hand-written model of the accept loop of Server.Serve, tied to /repo by running every sequence over {T,C,P,S} up to the length bound against the real Serve (fault-injecting listener)",
                                     "time.Sleep, the Temporary() classification of net.Error and the select on the done channel are modelled; sleeps are observed through Server.Log and bracketed by the wall clock"], exhaustive=True),
+          "C11": check_C11, "C12": check_C12,
           "C14": make_simple_check("C14", "client", ["-n", "150"], ["-n", "3000"],
                                    "result of Client.Send / DiscoverVersions (or the request bytes the peer received) differs from the model",
                                    ["Client.v is a hand-written model of Client.Send / DiscoverVersions, tied to /repo by running the real Client over loopback TLS against a scripted peer (certificates generated in-process) and the extracted model on the same payload and reply bytes",
